@@ -200,7 +200,9 @@ def simple (t : TT) (text rest : Str) : Match :=
 /-- NUMBER token from a matched lexeme (`float(...)` / `int(...)`). -/
 def numberMatch (env : Env) (t r1 : Str) : Except Exc (Option Match) :=
   if t.contains '.' || t.contains 'e' || t.contains 'E' then
-    .ok (some { type := .number, value := .float (env.floatRepr t), text := t, rest := r1, raw := some t })
+    -- `float(matched_text)`; an overflow to ±inf is refused (re-raised by `step` as LexerError E005)
+    if env.floatRepr t == "inf".toList || env.floatRepr t == "-inf".toList then .error (.py "OverflowToInf".toList)
+    else .ok (some { type := .number, value := .float (env.floatRepr t), text := t, rest := r1, raw := some t })
   else
     match intOfLexeme env t with
     | .ok i => .ok (some { type := .number, value := .int i, text := t, rest := r1, raw := some t })
@@ -336,6 +338,7 @@ structure LState where
   repairs : List Repair := []    -- reversed
   stack : List (Nat × Nat) := [] -- open brackets, innermost first
   spans : List Span := []        -- fence spans not yet consumed
+  blank : Bool := true           -- `not content[:pos].strip("\n")`: only newlines consumed so far (document start / frontmatter padding)
   deriving Repr
 
 /-- line/column after consuming `text` (`newline_count` logic). -/
@@ -407,7 +410,7 @@ def step (env : Env) (lenient : Bool) (st : LState) (s : Str) : Except Exc (LSta
       let t2 : Token := { type := .literalContent, value := .str literal, line := contentLine, col := 1 }
       let t3 : Token := { type := .fenceClose, value := .str sp.marker, line := closeLine, col := 1 }
       let st1 := { st with pos := sp.stop, prev := spanText.getLast?.orElse (fun _ => st.prev), line := closeLine + 1, col := 1,
-                           toks := t3 :: t2 :: t1 :: st.toks, spans := spans' }
+                           toks := t3 :: t2 :: t1 :: st.toks, spans := spans', blank := false }
       match rest with
       | '\n' :: rest' =>
         let t4 : Token := { type := .newline, value := .str ['\n'], line := closeLine, col := closeText.length + 1 }
@@ -420,13 +423,13 @@ def step (env : Env) (lenient : Bool) (st : LState) (s : Str) : Except Exc (LSta
       match r1 with
       | d :: _ =>
         if d != '\n' then
-          .ok ({ st with pos := st.pos + n, prev := some ' ', col := st.col + n,
+          .ok ({ st with pos := st.pos + n, prev := some ' ', col := st.col + n, blank := false,
                          toks := { type := .indent, value := .nat n, line := st.line, col := st.col } :: st.toks }, r1)
-        else .ok ({ st with pos := st.pos + n, prev := some ' ' }, r1)
-      | [] => .ok ({ st with pos := st.pos + n, prev := some ' ' }, r1)
-    else .ok ({ st with pos := st.pos + 1, prev := some ' ', col := st.col + 1 }, r)
+        else .ok ({ st with pos := st.pos + n, prev := some ' ', blank := false }, r1)
+      | [] => .ok ({ st with pos := st.pos + n, prev := some ' ', blank := false }, r1)
+    else .ok ({ st with pos := st.pos + 1, prev := some ' ', col := st.col + 1, blank := false }, r)
   else do
-    let m? ← (match matchPattern env (st.pos == 0) st.prev s with
+    let m? ← (match matchPattern env st.blank st.prev s with
       | .error _ => .error (Exc.lexer "E005".toList st.line st.col)   -- `except ValueError: raise LexerError`
       | .ok m => .ok m : Except Exc (Option Match))
     match m? with
@@ -444,14 +447,14 @@ def step (env : Env) (lenient : Bool) (st : LState) (s : Str) : Except Exc (LSta
         | none => st.repairs
       let (line', col') := advancePos st.line st.col m.text
       .ok ({ st with pos := st.pos + m.text.length, prev := m.text.getLast?.orElse (fun _ => st.prev), line := line', col := col',
-                     toks := tok :: st.toks, repairs := repairs, stack := stack }, m.rest)
+                     toks := tok :: st.toks, repairs := repairs, stack := stack, blank := st.blank && m.type == .newline }, m.rest)
     | none =>
       if startsWith "===".toList s && invalidEnvelopeError env s then
         .error (.lexer "E_INVALID_ENVELOPE_ID".toList st.line st.col)
       else if c == '+' then
         let tok : Token := { type := .synthesis, value := .str ['⊕'], line := st.line, col := st.col, normFrom := some ['+'] }
         .ok ({ st with pos := st.pos + 1, prev := some '+', col := st.col + 1, toks := tok :: st.toks,
-                       repairs := Repair.normalization ['+'] (.str ['⊕']) st.line st.col :: st.repairs }, r)
+                       repairs := Repair.normalization ['+'] (.str ['⊕']) st.line st.col :: st.repairs, blank := false }, r)
       else
         match matchIdentifier env lenient s with
         | some (ident, rest, rep) =>
@@ -459,7 +462,7 @@ def step (env : Env) (lenient : Bool) (st : LState) (s : Str) : Except Exc (LSta
           let reps := (match rep with | some (o, p) => [Repair.curlyBrace o p st.line st.col] | none => [])
                       ++ identifierRepairs ident st.line st.col
           .ok ({ st with pos := st.pos + ident.length, prev := (s.take ident.length).getLast?.orElse (fun _ => st.prev),
-                         col := st.col + ident.length, toks := tok :: st.toks, repairs := reps.reverse ++ st.repairs }, rest)
+                         col := st.col + ident.length, toks := tok :: st.toks, repairs := reps.reverse ++ st.repairs, blank := false }, rest)
         | none =>
           -- `%` merge into the previous NUMBER / IDENTIFIER token
           let merged : Option (LState × Str) :=
@@ -476,7 +479,7 @@ def step (env : Env) (lenient : Bool) (st : LState) (s : Str) : Except Exc (LSta
                       let tok : Token := { type := .identifier, value := .str (prevVal ++ kept), line := last.line, col := last.col,
                                            normFrom := last.normFrom, raw := none }
                       some ({ st with pos := st.pos + kept.length, prev := kept.getLast?, col := st.col + kept.length,
-                                      toks := tok :: before }, back ++ r1)
+                                      toks := tok :: before, blank := false }, back ++ r1)
                     else none
                   | none => none
                 else none
